@@ -19,6 +19,13 @@ package main
 //	                 `<arg> >= B` inside a range statement: the least value
 //	                 that passes                      -> N
 //
+//	c14b_mapsearch   in a function, the `for key, val := range <arg> { if ... }` loop
+//	                 that searches a package-level map for a value: true when the
+//	                 loop keeps the SMALLEST matching key (`if val == x && (acc == ""
+//	                 || string(key) < acc) { acc = string(key) }`, no break), false
+//	                 when it stops at the first match (`if val == x { acc = ...;
+//	                 break }`), lost otherwise            -> bool
+//
 // Whatever does not have exactly this shape is reported as lost (the
 // correspondence run still binds the function).
 
@@ -342,5 +349,67 @@ func init() {
 			return "", fmt.Errorf("expected exactly one lower bound on the range key, found %d", len(found))
 		}
 		return fmt.Sprintf("Definition %s : N := %d%%N.\n", it.Coq, found[0]), nil
+	}
+
+	kinds["c14b_mapsearch"] = func(root string, p *pkgInfo, it item) (string, error) {
+		fd := p.findFunc(it.Name)
+		if fd == nil {
+			return "", fmt.Errorf("function not found")
+		}
+		var loops []*ast.RangeStmt
+		ast.Inspect(fd, func(n ast.Node) bool {
+			if rs, ok := n.(*ast.RangeStmt); ok && p.exprText(rs.X) == it.Arg {
+				loops = append(loops, rs)
+			}
+			return true
+		})
+		if len(loops) != 1 {
+			return "", fmt.Errorf("expected exactly one loop over %s, found %d", it.Arg, len(loops))
+		}
+		rs := loops[0]
+		if rs.Key == nil || rs.Value == nil || len(rs.Body.List) != 1 {
+			return "", fmt.Errorf("unexpected loop shape")
+		}
+		key, val := p.exprText(rs.Key), p.exprText(rs.Value)
+		ifs, ok := rs.Body.List[0].(*ast.IfStmt)
+		if !ok || ifs.Init != nil || ifs.Else != nil {
+			return "", fmt.Errorf("loop body is not a plain if")
+		}
+		hasBreak := false
+		var acc string
+		for _, st := range ifs.Body.List {
+			switch x := st.(type) {
+			case *ast.BranchStmt:
+				if x.Tok != token.BREAK || x.Label != nil {
+					return "", fmt.Errorf("unexpected branch statement")
+				}
+				hasBreak = true
+			case *ast.AssignStmt:
+				if x.Tok != token.ASSIGN || len(x.Lhs) != 1 || len(x.Rhs) != 1 || acc != "" ||
+					p.exprText(x.Rhs[0]) != "string("+key+")" {
+					return "", fmt.Errorf("unexpected assignment in the loop")
+				}
+				acc = p.exprText(x.Lhs[0])
+			default:
+				return "", fmt.Errorf("unexpected statement in the loop")
+			}
+		}
+		if acc == "" {
+			return "", fmt.Errorf("the loop assigns nothing")
+		}
+		cond := strings.Join(strings.Fields(p.exprText(ifs.Cond)), " ")
+		prefix := val + " == "
+		if !strings.HasPrefix(cond, prefix) {
+			return "", fmt.Errorf("unexpected condition %s", cond)
+		}
+		rest := cond[len(prefix):]
+		switch {
+		case hasBreak && !strings.ContainsAny(rest, " &|("):
+			return fmt.Sprintf("Definition %s : bool := false.\n", it.Coq), nil
+		case !hasBreak && strings.HasSuffix(rest, fmt.Sprintf(" && (%s == \"\" || string(%s) < %s)", acc, key, acc)) &&
+			!strings.ContainsAny(strings.TrimSuffix(rest, fmt.Sprintf(" && (%s == \"\" || string(%s) < %s)", acc, key, acc)), " &|("):
+			return fmt.Sprintf("Definition %s : bool := true.\n", it.Coq), nil
+		}
+		return "", fmt.Errorf("neither first-match nor smallest-key search: if %s (break: %v)", cond, hasBreak)
 	}
 }
